@@ -2,6 +2,7 @@ package main
 
 import (
 	"fmt"
+	"go/ast"
 	"go/constant"
 	"go/token"
 	"go/types"
@@ -364,114 +365,9 @@ func c13(c *Ctx) {
 	}
 	r.Stat("error_call_sites", n)
 
-	// ---- R7 every validation test has a consequence: a comparison whose result is used by nothing (the body of
-	// `if name == "" { panic(…) }` was lost: go/ssa then drops the branch and leaves the comparison behind)
-	nFn := 0
-	for _, f := range p.Funcs {
-		if !inPk(relPkg(f)) || !strings.HasPrefix(pkgPathOf(f), Mod) || f.Blocks == nil || f.Synthetic != "" {
-			continue
-		}
-		nFn++
-		eachInstr(f, func(i ssa.Instruction) {
-			bo, ok := i.(*ssa.BinOp)
-			if !ok || !isBool(bo.Type()) {
-				return
-			}
-			switch bo.Op {
-			case token.EQL, token.NEQ, token.LSS, token.LEQ, token.GTR, token.GEQ:
-			default:
-				return
-			}
-			used := false
-			for _, ref := range *bo.Referrers() {
-				if _, dbg := ref.(*ssa.DebugRef); !dbg {
-					used = true
-				}
-			}
-			if !used && bo.Pos().IsValid() {
-				r.Bad("C13.R7", "test without consequence in "+shortName(f), p.Pos(posOf(bo)), "a condition is evaluated and nothing depends on it (an `if` with an empty body): the mistake it tests for is no longer rejected")
-			}
-		})
-	}
-	r.OK("C13.R7", "validation tests have consequences", "", fmt.Sprintf("%d functions: no comparison is left without a use", nFn))
-
-	// ---- R8 an error value is reported where it can be an error: on the side of an `err == nil` / `err != nil` test where
-	// the error is known to be nil, it is not handed to a call, asked for its message or panicked with (a test whose
-	// sense was inverted reports success as failure and lets the failure through)
-	nTests := 0
-	errT := types.Universe.Lookup("error").Type()
-	for _, f := range p.Funcs {
-		if !inPk(relPkg(f)) || !strings.HasPrefix(pkgPathOf(f), Mod) || f.Blocks == nil {
-			continue
-		}
-		nInF := 0
-		eachInstr(f, func(i ssa.Instruction) {
-			iff, ok := i.(*ssa.If)
-			if !ok {
-				return
-			}
-			bo, ok := iff.Cond.(*ssa.BinOp)
-			if !ok || (bo.Op != token.EQL && bo.Op != token.NEQ) {
-				return
-			}
-			var e ssa.Value
-			if isNilConst(bo.Y) {
-				e = bo.X
-			} else if isNilConst(bo.X) {
-				e = bo.Y
-			}
-			if e == nil || !types.Identical(e.Type(), errT) {
-				return
-			}
-			// the tested value comes from a call (not a parameter or a field: those may legitimately be re-reported)
-			fromCall := false
-			for _, a := range origins(e) {
-				if a.Kind == "call" {
-					fromCall = true
-				}
-			}
-			if !fromCall {
-				return
-			}
-			nTests++
-			nInF++
-			nilSucc := iff.Block().Succs[0]
-			if bo.Op == token.NEQ {
-				nilSucc = iff.Block().Succs[1]
-			}
-			if len(nilSucc.Preds) != 1 {
-				return // the nil side is the join: nothing is specific to it
-			}
-			isE := func(v ssa.Value) bool { return v == e }
-			bad := ""
-			for _, b := range f.Blocks {
-				if b != nilSucc && !nilSucc.Dominates(b) {
-					continue
-				}
-				for _, ins := range b.Instrs {
-					switch x := ins.(type) {
-					case *ssa.Panic:
-						if dependsOn(x.X, isE) || varargsDependOn(x.X, isE) {
-							bad = "panics with it at " + p.Pos(posOf(ins))
-						}
-					case ssa.CallInstruction:
-						c := x.Common()
-						if c.IsInvoke() && c.Value == e {
-							bad = "asks it for " + c.Method.Name() + "() at " + p.Pos(posOf(ins))
-						}
-						for _, a := range c.Args {
-							if a == e || varargsDependOn(a, isE) {
-								bad = "hands it to " + calleeName(c) + " at " + p.Pos(posOf(ins))
-							}
-						}
-					}
-				}
-			}
-			r.Check(bad == "", "C13.R8", "error used only where it can be non-nil in "+shortName(f)+" #"+itoa2(nInF), p.Pos(posOf(iff)), "the nil side does not report the error",
-				"on the side of the test where the error is nil the code "+bad+": the sense of the test is inverted — success is reported as failure and a real failure passes unnoticed")
-		})
-	}
-	r.Stat("error_tests", nTests)
+	// ---- R7 every validation test has a consequence; R8 an error is reported only where it can be non-nil
+	checkNoDeadComparisons(p, r, "C13.R7", inPk)
+	checkErrorPolarity(p, r, "C13.R8", inPk)
 
 	// ---- R5 (clause) like is compared with like: a comparison between two reflect.Type counts compares parameter counts with
 	// parameter counts or result counts with result counts, never one with the other
@@ -1216,4 +1112,154 @@ func varargsDependOn(v ssa.Value, isT func(ssa.Value) bool) bool {
 		return dependsOn(mi.X, isT)
 	}
 	return false
+}
+
+// checkNoDeadComparisons: in the packages inPk accepts, no comparison is left without a use (the body of
+// `if name == "" { panic(…) }` was lost: go/ssa then drops the branch and leaves the comparison behind).
+func checkNoDeadComparisons(p *Prog, r *Report, rule string, inPk func(string) bool) {
+	nFn := 0
+	for _, pk := range p.Pkgs {
+		rel := strings.TrimPrefix(strings.TrimPrefix(pk.PkgPath, Mod), "/")
+		if !strings.HasPrefix(pk.PkgPath, Mod) || !inPk(rel) {
+			continue
+		}
+		for _, file := range pk.Syntax {
+			for _, d := range file.Decls {
+				fd, ok := d.(*ast.FuncDecl)
+				if !ok || fd.Body == nil {
+					continue
+				}
+				nFn++
+				name := fd.Name.Name
+				ast.Inspect(fd.Body, func(n ast.Node) bool {
+					ifs, ok := n.(*ast.IfStmt)
+					if !ok || ifs.Else != nil || len(ifs.Body.List) != 0 {
+						return true
+					}
+					// an empty branch on a call is a call made for its effect, not a test
+					if _, isCall := ifs.Cond.(*ast.CallExpr); isCall {
+						return true
+					}
+					r.Bad(rule, "test without consequence in "+rel+"."+name, p.Pos(ifs.Pos()), "a condition is tested and nothing depends on it (an `if` with an empty body): the mistake it tests for is no longer rejected")
+					return true
+				})
+			}
+		}
+	}
+	r.OK(rule, "validation tests have consequences", "", fmt.Sprintf("%d functions: no `if` has an empty body", nFn))
+}
+
+// checkErrorPolarity: on the side of an `err == nil` / `err != nil` test where the error is known to be nil, it is not
+// handed to a call, asked for its message or panicked with (a test whose sense was inverted reports success as failure and
+// lets the failure through).
+func checkErrorPolarity(p *Prog, r *Report, rule string, inPk func(string) bool) {
+	nTests := 0
+	errT := types.Universe.Lookup("error").Type()
+	for _, f := range p.Funcs {
+		if !inPk(relPkg(f)) || !strings.HasPrefix(pkgPathOf(f), Mod) || f.Blocks == nil {
+			continue
+		}
+		nInF := 0
+		eachInstr(f, func(i ssa.Instruction) {
+			iff, ok := i.(*ssa.If)
+			if !ok {
+				return
+			}
+			bo, ok := iff.Cond.(*ssa.BinOp)
+			if !ok || (bo.Op != token.EQL && bo.Op != token.NEQ) {
+				return
+			}
+			var e ssa.Value
+			if isNilConst(bo.Y) {
+				e = bo.X
+			} else if isNilConst(bo.X) {
+				e = bo.Y
+			}
+			if e == nil || !types.Identical(e.Type(), errT) {
+				return
+			}
+			// the tested value comes from a call (not a parameter or a field: those may legitimately be re-reported)
+			fromCall := false
+			for _, a := range origins(e) {
+				if a.Kind == "call" {
+					fromCall = true
+				}
+			}
+			if !fromCall {
+				return
+			}
+			nTests++
+			nInF++
+			nilSucc := iff.Block().Succs[0]
+			if bo.Op == token.NEQ {
+				nilSucc = iff.Block().Succs[1]
+			}
+			if len(nilSucc.Preds) != 1 {
+				return // the nil side is the join: nothing is specific to it
+			}
+			isE := func(v ssa.Value) bool { return v == e }
+			// does the side where the error is non-nil report it (return, panic, call)?
+			otherSideReports := false
+			nonNil := iff.Block().Succs[1]
+			if bo.Op == token.NEQ {
+				nonNil = iff.Block().Succs[0]
+			}
+			for _, b := range f.Blocks {
+				if b != nonNil && !(len(nonNil.Preds) == 1 && nonNil.Dominates(b)) {
+					continue
+				}
+				for _, ins := range b.Instrs {
+					switch x := ins.(type) {
+					case *ssa.Return:
+						for _, rv := range x.Results {
+							if dependsOn(rv, isE) {
+								otherSideReports = true
+							}
+						}
+					case *ssa.Panic:
+						otherSideReports = true
+					case ssa.CallInstruction:
+						for _, a := range x.Common().Args {
+							if a == e || varargsDependOn(a, isE) || dependsOn(a, isE) {
+								otherSideReports = true
+							}
+						}
+					}
+				}
+			}
+			bad := ""
+			for _, b := range f.Blocks {
+				if b != nilSucc && !nilSucc.Dominates(b) {
+					continue
+				}
+				for _, ins := range b.Instrs {
+					switch x := ins.(type) {
+					case *ssa.Panic:
+						if dependsOn(x.X, isE) || varargsDependOn(x.X, isE) {
+							bad = "panics with it at " + p.Pos(posOf(ins))
+						}
+					case *ssa.Return:
+						// `return …, err` on the side where err is nil, in a function that does not report it where it is not
+						if ei := errIndex(f.Signature); ei >= 0 && ei < len(x.Results) && resolveLocal(x.Results[ei]) == e && !otherSideReports {
+							bad = "returns it as the error at " + p.Pos(posOf(ins))
+						}
+					case ssa.CallInstruction:
+						c := x.Common()
+						if c.IsInvoke() && c.Value == e {
+							bad = "asks it for " + c.Method.Name() + "() at " + p.Pos(posOf(ins))
+						}
+						for _, a := range c.Args {
+							if a == e || varargsDependOn(a, isE) {
+								bad = "hands it to " + calleeName(c) + " at " + p.Pos(posOf(ins))
+							}
+						}
+					}
+				}
+			}
+			r.Check(bad == "", rule, "error used only where it can be non-nil in "+shortName(f)+" #"+itoa2(nInF), p.Pos(posOf(iff)), "the nil side does not report the error",
+				"on the side of the test where the error is nil the code "+bad+": the sense of the test is inverted — success is reported as failure and a real failure passes unnoticed")
+		})
+	}
+	r.Stat("error_tests", nTests)
+
 }
